@@ -69,10 +69,13 @@ func C05(c *Ctx) {
 	c.R.Rule("C05-R3", "E5", "truthful remainder at Limited / BreakpointReached", 2)
 	c.R.Rule("C05-R4", "E5", "state chaining", 1)
 	c.R.Rule("C05-R5", "E3", "stop reasons are stored only under their conditions", 3)
+	c.R.Rule("C05-R11", "E3", "every successful return of Walk stores a stop reason on its way out", 3)
 	c.R.Rule("C05-R7", "E5", "the order in which candidate bindings are offered to a guard does not follow map iteration", 1)
 	c05CandidateOrder(c)
 	c.R.Rule("C05-R6", "E3", "a step that evaluated branches reports its stride (which records the consumption)", 1)
 	c.shareRule("C16", "C16-R2", "C05-R9", "in the multi-request host every step starts from the state the previous one produced: the walk and the installation of its result hold the crew's write lock in one critical section")
+	c.shareRule("C08", "C08-R4", "C05-R12", "the walk's record is complete and ordered: strides are only appended, and every reader of the record scans all of it (Walked.To included, from which hosts take the machine's next state)")
+	c.shareRule("C04", "C04-R3", "C05-R13", "each message at most once: the stride records the consumption of a message that was matched against, whether or not a branch was taken or failed")
 	c.shareRule("C02", "C02-R8", "C05-R10", "absent bindings are matched as empty bindings: a machine without bindings still takes its pattern branches")
 	c.R.Rule("C05-R8", "E1", "Walk reads the batch of messages it is given and never writes it (hosts offer one batch to several machines and re-deliver sub-slices)", 1)
 	c.batchUntouched("C05-R8")
@@ -363,6 +366,38 @@ func C05(c *Ctx) {
 	})
 	if n5 == 0 {
 		c.R.Break("C05-R5: no store to Walked.StoppedBecause in Walk")
+	}
+	// ---- R11 every successful return states why the walk stopped
+	// (the zero value of the reason reads as Done: a return that never stored one claims a quiescent machine and an empty remainder)
+	onCycle := func(b *ssa.BasicBlock) bool {
+		for _, sc := range b.Succs {
+			if flow.Reachable(sc, b, nil) {
+				return true
+			}
+		}
+		return false
+	}
+	n11 := 0
+	for _, b := range walk.Blocks {
+		if len(b.Instrs) == 0 {
+			continue
+		}
+		ret, isRet := b.Instrs[len(b.Instrs)-1].(*ssa.Return)
+		if !isRet || len(ret.Results) != 2 || !ssau.IsNilConst(ret.Results[1]) {
+			continue
+		}
+		n11++
+		stated := false
+		ssau.Instrs(walk, func(in ssa.Instruction) {
+			st, ok := in.(*ssa.Store)
+			if !ok || !ssau.IsField(st.Addr, prog.Abs("core"), "Walked", "StoppedBecause") {
+				return
+			}
+			if st.Block() == b || (st.Block().Dominates(b) && !onCycle(st.Block())) {
+				stated = true
+			}
+		})
+		c.R.Check(stated, "C05-R11", fmt.Sprintf("Walk: successful return #%d states its stop reason", n11), c.pos(ret), "a StoppedBecause store on the way out (in the returning block, or in a dominating block outside every cycle)", "Walk returns without storing why it stopped: the caller reads the zero value (Done, nothing remaining) although the machine may still be able to step and messages may be unconsumed")
 	}
 	_ = strings.Join
 }
